@@ -10,7 +10,8 @@
                    input does not carry the "__fastavro_parsed" marker (all generated schemas) *)
 From Coq Require Import String.
 From FA Require Import model.Base model.Json model.Parse model.SchemaSpec model.Canon
-     model.Inline proofs.JsonProofs proofs.ParseProofs proofs.CanonProofs proofs.InlineProofs.
+     model.Inline model.Value model.Schema model.Codec model.Bridge
+     proofs.JsonProofs proofs.ParseProofs proofs.CanonProofs proofs.InlineProofs proofs.CodecProofs proofs.BridgeProofs proofs.BridgeCanonProofs.
 Open Scope string_scope.
 
 (** canon (parse j) = pcf j, for every raw schema the parser accepts, any fuel, any
@@ -132,10 +133,49 @@ Theorem C13_cosmetic_dotted_name : forall ns kv n sp,
 Proof. exact cosmetic_dotted_name. Qed.
 Print Assumptions C13_cosmetic_dotted_name.
 
-(** C13_same_encoding (the canonical form describes the same binary encoding) needs the
-    codec model (wire/dec depend on the erasure of doc, aliases, defaults, order, logical and
-    custom attributes only); it is left to the codec development:
-      forall j p c p', parse j = POk p -> parse (pcf_json j) = POk p' -> erase p' = erase p. *)
+(** ---- C13_same_encoding: the canonical form describes the same binary encoding ----
+    [schema_of_json] / [env_of_table] (model/Bridge.v) take a parsed schema and its table to the codec
+    AST of model/Schema.v; [erase_schema] drops aliases, defaults, the enum default and annotations.
+
+    (i) the decoder depends on the erased schema and table only: what decodes under (e, s) decodes
+    with the same fuel under the erasure, and conversely with one more unit of fuel per nested
+    annotation ([achk a]: no node carries more than a annotations); [wire] does not take a schema *)
+Theorem C13_codec_erased_fwd : forall f e s, mono (dec f e s) (dec f (erase_env e) (erase_schema s)).
+Proof. exact dec_erase_fwd. Qed.
+Print Assumptions C13_codec_erased_fwd.
+
+Theorem C13_codec_erased_bwd : forall a f e s,
+  achk a s = true -> (forall n d, lookup e n = Some d -> achk a d = true) ->
+  mono (dec f (erase_env e) (erase_schema s)) (dec (f * S a) e s).
+Proof. exact dec_erase_bwd. Qed.
+Print Assumptions C13_codec_erased_bwd.
+
+(** (ii) the erased codec schema of the parse is the codec schema of the specification's canonical
+    JSON, so a schema and the parse of its canonical form have the same erased codec schema (names
+    are full names on both sides) *)
+Theorem C13_bridge_is_canon : forall f j t p t',
+  simple_raw j = true -> parse_schema f j t = POk (p, t') ->
+  option_map erase_schema (schema_of_json p) = schema_of_json (pcf_json j).
+Proof. exact bridge_parse_is_canon. Qed.
+Print Assumptions C13_bridge_is_canon.
+
+Theorem C13_same_encoding_schema : forall j f t p t' f2 t2 p2 t2',
+  ns_closed j = true -> simple_raw j = true -> simple_raw (pcf_json j) = true ->
+  parse_schema f j t = POk (p, t') -> parse_schema f2 (pcf_json j) t2 = POk (p2, t2') ->
+  option_map erase_schema (schema_of_json p2) = option_map erase_schema (schema_of_json p).
+Proof. exact same_erased_schema. Qed.
+Print Assumptions C13_same_encoding_schema.
+
+(** hence bytes that decode under one decode to the same value under the other.  Partial: the
+    equality of the erased TABLES (env_of_table of the two parses) is a hypothesis here - what is
+    missing is the characterisation of every table entry as the parse of its definition; the
+    correspondence evaluates it on every generated schema (same_encoding_check) *)
+Theorem C13_same_encoding_partial : forall a f e1 s1 e2 s2,
+  erase_schema s1 = erase_schema s2 -> erase_env e1 = erase_env e2 ->
+  achk a s2 = true -> (forall n d, lookup e2 n = Some d -> achk a d = true) ->
+  mono (dec f e1 s1) (dec (f * S a) e2 s2).
+Proof. exact dec_same_erasure. Qed.
+Print Assumptions C13_same_encoding_partial.
 
 (** ---- anchors: the Apache vectors of tests/test_canonical_form.py, evaluated by the model ---- *)
 Example C13_vec_prim_int : to_canonical (JStr "int") = POk """int""".
